@@ -65,6 +65,62 @@ func (t *c01Fmt) add(x float64) {
 	t.out = append(t.out, hx.L(hx.F64(x), hx.S(s)))
 }
 
+// c01ReprintLen is the length of the benchmark line the format prescribes for
+// res when written back ("Benchmark<name> <iters>" then " <%v> <unit>" per
+// measurement as originally written), without the newline.
+func c01ReprintLen(res *benchfmt.Result) int {
+	n := len("Benchmark") + len(res.Name) + 1 + len(strconv.Itoa(res.Iters))
+	for _, v := range res.Values {
+		x, u := v.Value, v.Unit
+		if v.OrigUnit != "" {
+			x, u = v.OrigValue, v.OrigUnit
+		}
+		n += 1 + len(fmt.Sprintf("%v", x)) + 1 + len(u)
+	}
+	return n
+}
+
+// c01LongLine builds a benchmark line shorter than 64 KiB whose measurements
+// re-print longer (1e9 -> 1e+09, .5 -> 0.5 ...) so that the written line reaches 64 KiB.
+func c01LongLine(r *hx.Rng, witness bool) string {
+	if witness {
+		return "BenchmarkX 1" + strings.Repeat(" 1e9 u", 10920) + "\n"
+	}
+	type lv struct {
+		lit  string
+		grow int
+	}
+	var lits []lv
+	for _, l := range []string{"1e9", "1e7", "1E9", "1e21", ".5", "2e10", "1e-7", "1e+9"} {
+		x, _ := strconv.ParseFloat(l, 64)
+		lits = append(lits, lv{l, len(fmt.Sprintf("%v", x)) - len(l)})
+	}
+	unit := []string{"u", "x", "ns/op", "B"}[r.Intn(4)]
+	head := "Benchmark" + []string{"X", "Long/n=1-8", "é"}[r.Intn(3)] + " " + []string{"1", "100"}[r.Intn(2)]
+	var sb strings.Builder
+	sb.WriteString(head)
+	orig, re := len(head), len(head)
+	for re < 65536+r.Intn(64) {
+		l := lits[r.Intn(len(lits))]
+		add := 1 + len(l.lit) + 1 + len(unit)
+		if orig+add > 65535 {
+			break
+		}
+		sb.WriteString(" " + l.lit + " " + unit)
+		orig += add
+		re += add + l.grow
+	}
+	sb.WriteString("\n")
+	pre, post := "", ""
+	if r.Bool() {
+		pre = "k: v\nBenchmarkA 1 1 ns/op\n"
+	}
+	if r.Bool() {
+		post = "BenchmarkB 2 2 MB/s\n"
+	}
+	return pre + sb.String() + post
+}
+
 func c01ReadBack(out []byte) (*c02Obs, hx.Sx, error) {
 	rd := benchfmt.NewReader(bytes.NewReader(out), "out")
 	ob := &c02Obs{}
@@ -98,6 +154,25 @@ func c01History(o *hx.Out, steps []c01Step, tags ...string) (err error) {
 	ft := &c01Fmt{seen: map[uint64]bool{}}
 	var sx []hx.Sx
 	crValue := false
+	// class bookkeeping: a key added into the slot just vacated by a deletion
+	// (no other key added in between) with the opposite kind of the deleted entry
+	delSet, delKind, delKey := false, false, ""
+	recycledOpp, recycledOppSame := 0, 0
+	track := func(e c01Edit, file bool) {
+		i, ok := res.ConfigIndex(e.K)
+		switch {
+		case e.V == "" && ok:
+			delSet, delKind, delKey = true, res.Config[i].File, e.K
+		case e.V != "" && !ok:
+			if delSet && delKind != file {
+				recycledOpp++
+				if delKey == e.K {
+					recycledOppSame++
+				}
+			}
+			delSet = false
+		}
+	}
 	for si := range steps {
 		st := &steps[si]
 		switch st.Kind {
@@ -119,9 +194,11 @@ func c01History(o *hx.Out, steps []c01Step, tags ...string) (err error) {
 		for _, e := range st.Edits {
 			switch e.Op {
 			case "set":
+				track(e, false)
 				res.SetConfig(e.K, e.V)
 				ex = append(ex, hx.L(hx.I(0), hx.S(e.K), hx.S(e.V)))
 			case "setfile":
+				track(e, true)
 				res.SetConfig(e.K, e.V)
 				if e.V != "" {
 					i, _ := res.ConfigIndex(e.K)
@@ -181,6 +258,12 @@ func c01History(o *hx.Out, steps []c01Step, tags ...string) (err error) {
 	if ft.diff > 0 {
 		o.Count("fmt-%v-differs-from-strconv-g")
 	}
+	if recycledOpp > 0 {
+		o.Count("class:history:key-added-into-recycled-slot-of-opposite-kind")
+	}
+	if recycledOppSame > 0 {
+		o.Count("class:history:key-deleted-and-re-added-with-opposite-kind-in-same-slot")
+	}
 	c := hx.L(hx.I(1), c02Oracle([]string{string(out)}), hx.List(ft.out), hx.List(sx), hx.B(out), hx.List(ob.recs), errx)
 	o.Count(fmt.Sprintf("history:steps=%d", min(len(steps), 12)))
 	o.Add(c, in, key, len(steps) > 1, tags...)
@@ -230,6 +313,8 @@ func c01GenHistory(r *hx.Rng, cr bool) []c01Step {
 		return c01KVals[r.Intn(len(c01KVals))]
 	}
 	var steps []c01Step
+	kind := map[string]bool{} // file?
+	lastDel, lastDelKind := "", false
 	for i := 0; i < n; i++ {
 		if r.Chance(0.08) {
 			u := []string{"ns/op", "sec/op", "MB/s", "widgets", "B/s"}[r.Intn(5)]
@@ -259,7 +344,13 @@ func c01GenHistory(r *hx.Rng, cr bool) []c01Step {
 		edit := func(k string) c01Edit {
 			if !present[k] {
 				present[k] = true
-				if r.Chance(0.7) {
+				file := r.Chance(0.7)
+				if lastDel != "" && r.Chance(0.6) {
+					file = !lastDelKind // the recycled slot held an entry of the other kind
+				}
+				lastDel = ""
+				kind[k] = file
+				if file {
 					return c01Edit{Op: "setfile", K: k, V: val()} // add / re-add as file key
 				}
 				return c01Edit{Op: "set", K: k, V: val()} // add as internal key
@@ -267,17 +358,22 @@ func c01GenHistory(r *hx.Rng, cr bool) []c01Step {
 			switch r.Intn(6) {
 			case 0:
 				present[k] = false
+				lastDel, lastDelKind = k, kind[k]
 				return c01Edit{Op: "set", K: k, V: ""} // delete
 			case 1:
+				kind[k] = !kind[k]
 				return c01Edit{Op: "flip", K: k} // file <-> internal
 			case 2:
+				kind[k] = false
 				return c01Edit{Op: "set", K: k, V: val()} // SetConfig on a file key: turns internal
 			case 3:
 				return c01Edit{Op: "value", K: k, V: val()} // value changed in place
 			case 4:
 				present[k] = false
+				lastDel, lastDelKind = k, kind[k]
 				return c01Edit{Op: "setfile", K: k, V: ""}
 			}
+			kind[k] = true
 			return c01Edit{Op: "setfile", K: k, V: val()} // change
 		}
 		if ne >= 2 && len(order) >= 2 && r.Chance(0.5) {
@@ -291,7 +387,11 @@ func c01GenHistory(r *hx.Rng, cr bool) []c01Step {
 			}
 		}
 		for j := 0; j < ne; j++ {
-			st.Edits = append(st.Edits, edit(keys[r.Intn(len(keys))]))
+			k := keys[r.Intn(len(keys))]
+			if lastDel != "" && !present[lastDel] && r.Chance(0.4) {
+				k = lastDel // re-add the key just deleted, nothing added in between
+			}
+			st.Edits = append(st.Edits, edit(k))
 		}
 		for _, k := range keys {
 			if present[k] && !inOrder[k] {
@@ -361,6 +461,8 @@ func c01Text(o *hx.Out, dir string, names, contents, paths []string, tags ...str
 	ob := &c02Obs{}
 	ft := &c01Fmt{seen: map[uint64]bool{}}
 	crValue := false
+	last, changes, sameLen := map[string]string{}, map[string]int{}, 0
+	longLine := false
 	for files.Scan() {
 		rec := files.Result()
 		if e := ob.add(rec); e != nil {
@@ -372,6 +474,19 @@ func c01Text(o *hx.Out, dir string, names, contents, paths []string, tags ...str
 		case *benchfmt.Result:
 			if ok, _ := filter.Apply(rec); !ok {
 				continue
+			}
+			if c01ReprintLen(rec) >= 65536 {
+				longLine = true
+			}
+			for _, c := range rec.Config {
+				if !c.File {
+					continue
+				}
+				if old, ok := last[c.Key]; ok && old != string(c.Value) && len(old) == len(c.Value) {
+					changes[c.Key]++
+					sameLen = max(sameLen, changes[c.Key])
+				}
+				last[c.Key] = string(c.Value)
 			}
 			for _, v := range rec.Values {
 				if v.OrigUnit == "" {
@@ -399,6 +514,15 @@ func c01Text(o *hx.Out, dir string, names, contents, paths []string, tags ...str
 		tags = append(tags, "C01_value_ends_with_CR")
 		o.Count("class:file-value-ends-with-CR")
 	}
+	if longLine {
+		// input predicate: a result line (shorter than the scanner's limit, or it would
+		// not have been read) whose re-printed form reaches 64 KiB
+		tags = append(tags, "C01_reprinted_line_exceeds_scanner_limit")
+		o.Count("class:text:reprinted-line>=64KiB")
+	}
+	if sameLen >= 3 {
+		o.Count("class:text:file-value-changes-to-same-length>=3 (same Result streamed reader->writer)")
+	}
 	o.Dist["text:results"] += ob.nres
 	o.Dist["text:unit-metadata"] += ob.nunit
 	o.Dist["text:syntax-errors-dropped"] += ob.nerr
@@ -409,10 +533,10 @@ func c01Text(o *hx.Out, dir string, names, contents, paths []string, tags ...str
 }
 
 func genC01(o *hx.Out, r *hx.Rng, tier string, replay string) error {
-	o.Rule = "(a) histories of 1-12 records written by benchfmt.Writer: results whose configuration is edited between writes through the API over 1-5 keys (add / re-add as file or internal key, change, in-place value change, delete, flip file<->internal, SetConfig on a file key, no change; a deletion together with a change or deletion of the next key in the writer's order), 1-3 measurements from {0,-0,+-Inf,NaN,subnormal,17-significant-digit,random bits} x {rescaled by Tidy, plain, API-built without original}, unit-metadata and SyntaxError records in between; (b) arbitrary texts from the C02 generator (1-3 files, label=path arguments) through the cmd/benchfilter loop (Files -> Filter \"*\" -> Writer). The written bytes are read back by benchfmt.Reader. Class C01_value_ends_with_CR (a file value ending in CR) is tagged. non-trivial = more than one record; distinct by history / input bytes"
-	nh, nt := 1500, 400
+	o.Rule = "(a) histories of 1-12 records written by benchfmt.Writer: results whose configuration is edited between writes through the API over 1-5 keys (add / re-add as file or internal key, change, in-place value change, delete, flip file<->internal, SetConfig on a file key, no change; a deletion together with a change or deletion of the next key in the writer's order), 1-3 measurements from {0,-0,+-Inf,NaN,subnormal,17-significant-digit,random bits} x {rescaled by Tidy, plain, API-built without original}, unit-metadata and SyntaxError records in between; (b) arbitrary texts from the C02 generator (1-3 files, label=path arguments) through the cmd/benchfilter loop (Files -> Filter \"*\" -> Writer), 35% of the files from a churn generator (1-3 keys, the main key taking 4-8 successive values of ONE length with 1-2 results after each change, other keys changed / deleted / re-added around it, unit and foreign lines); (c) the REAL cmd/benchfilter binary built from the module under test, run on such files (1-3 files, label=path, repeated paths; 15% through stdin) with the queries *, key:value and .unit:literal (mostly naming a key/value/unit present in the input), its stdout read back and compared with the filtered record stream (results, file configuration, unit metadata); (d) one Reader reused through Reset over 2-4 inputs, with and without an initial label on the key that the first line of the input sets, every record streamed into one Writer. Histories favour re-adding the key just deleted (or another key) with the opposite kind into the vacated slot. The written bytes are read back by benchfmt.Reader. Class C01_value_ends_with_CR (a file value ending in CR) is tagged; so is C01_reprinted_line_exceeds_scanner_limit (1-2 texts with a result line just under 64 KiB whose measurements re-print longer, 1e9 -> 1e+09, so that the written line exceeds the reader's line limit). non-trivial = more than one record; distinct by history / input bytes"
+	nh, nt, nb, nr := 1500, 400, 220, 300
 	if tier == "thorough" {
-		nh, nt = 40000, 8000
+		nh, nt, nb, nr = 40000, 8000, 3000, 6000
 	}
 	// directed histories
 	kv := func(op, k, v string) c01Edit { return c01Edit{Op: op, K: k, V: v} }
@@ -420,15 +544,25 @@ func genC01(o *hx.Out, r *hx.Rng, tier string, replay string) error {
 		return c01Step{Kind: "result", Edits: edits, Name: "X", Iters: 1, vals: []c01Val{{Value: 1e-9, Unit: "sec/op", OrigValue: 1, OrigUnit: "ns/op"}}}
 	}
 	directed := [][]c01Step{
-		{one(kv("setfile", "k", "v")), one(kv("flip", "k", ""))}, // file -> internal
-		{one(kv("setfile", "k", "v")), one(kv("set", "k", "v"))}, // SetConfig on a file key
-		{one(kv("set", "k", "v")), one(kv("flip", "k", ""))},     // internal -> file
+		{one(kv("setfile", "k", "v")), one(kv("flip", "k", ""))},                             // file -> internal
+		{one(kv("setfile", "k", "v")), one(kv("set", "k", "v"))},                             // SetConfig on a file key
+		{one(kv("set", "k", "v")), one(kv("flip", "k", ""))},                                 // internal -> file
 		{one(kv("setfile", "a", "1"), kv("setfile", "b", "2"), kv("setfile", "c", "3")), one(kv("set", "a", ""), kv("setfile", "b", "9"))},
 		{one(kv("setfile", "a", "1"), kv("setfile", "b", "2"), kv("setfile", "c", "3")), one(kv("set", "a", ""), kv("set", "b", ""))},
 		{one(kv("setfile", "a", "1"), kv("setfile", "b", "2")), one(kv("set", "a", "")), one(kv("setfile", "a", "1"))},
 		{one(kv("setfile", "a", "1"), kv("setfile", "b", "2")), one(kv("set", "a", ""), kv("setfile", "c", "3")), one()},
 		{one(), one(kv("setfile", "a", "1")), one(kv("set", "a", "")), one()},
 		{one(kv("setfile", "a", "1"), kv("set", "i", "x")), one(kv("flip", "a", ""), kv("flip", "i", ""))},
+		// a key deleted and re-added with the opposite kind, landing in the slot it vacated
+		{one(kv("setfile", "a", "1"), kv("setfile", "b", "2")), one(kv("set", "a", "")), one(kv("set", "a", "1"))},
+		{one(kv("set", "a", "1"), kv("setfile", "b", "2")), one(kv("set", "a", "")), one(kv("setfile", "a", "1"))},
+		{one(kv("setfile", "a", "1")), one(kv("set", "a", "")), one(kv("set", "a", "1"))},
+		{one(kv("set", "a", "x")), one(kv("setfile", "a", "")), one(kv("setfile", "a", "x"))},
+		{one(kv("setfile", "a", "1")), one(kv("set", "a", ""), kv("set", "a", "1"))},
+		{one(kv("set", "a", "1")), one(kv("set", "a", ""), kv("setfile", "a", "1"))},
+		{one(kv("setfile", "a", "1"), kv("setfile", "b", "2")), one(kv("set", "b", ""), kv("set", "c", "3"))},
+		{one(kv("set", "a", "1"), kv("set", "b", "2")), one(kv("set", "b", ""), kv("setfile", "c", "3"))},
+		{one(kv("setfile", "a", "1"), kv("setfile", "b", "2"), kv("setfile", "c", "3")), one(kv("set", "a", ""), kv("set", "b", "")), one(kv("set", "b", "2"), kv("set", "a", "1"))},
 	}
 	for _, h := range directed {
 		if err := c01History(o, h, "directed"); err != nil {
@@ -458,30 +592,131 @@ func genC01(o *hx.Out, r *hx.Rng, tier string, replay string) error {
 		return err
 	}
 	defer os.Chdir(cwd)
-	fixed := []string{"k: v\r\r\nBenchmarkX 1 1 ns/op\n", "k: v\r\nBenchmarkX 1 1 ns/op\r\n", "a: 1\nBenchmarkX 1 0 ns/op +Inf MB/s NaN B/op\na:\nb: 2\nBenchmarkY 5 0.30000000000000004 widgets\n"}
+	fixed := []string{"k: v\r\r\nBenchmarkX 1 1 ns/op\n", "k: v\r\nBenchmarkX 1 1 ns/op\r\n", "a: 1\nBenchmarkX 1 0 ns/op +Inf MB/s NaN B/op\na:\nb: 2\nBenchmarkY 5 0.30000000000000004 widgets\n",
+		// one key, four values of one length, a result after each (the reader reuses the value buffer)
+		"goos: linux\nBenchmarkX 1 1 ns/op\ngoos: amd64\nBenchmarkX 1 1 ns/op\ngoos: win32\nBenchmarkX 1 1 ns/op\ngoos: plan9\nBenchmarkX 1 1 ns/op\ngoos: linux\nBenchmarkX 1 1 ns/op\n",
+		"k: a\nj: x\nBenchmarkX 1 1 ns/op\nk: b\nBenchmarkX 1 1 ns/op\nk: c\nBenchmarkY 1 1 ns/op\nk: a\nBenchmarkX 2 1 ns/op\nk: b\nBenchmarkX 1 1 ns/op\n"}
 	for _, t := range fixed {
 		if err := c01Text(o, dir, []string{"a"}, []string{t}, []string{"a"}, "fixed"); err != nil {
+			return err
+		}
+	}
+	// known finding C01_reprinted_line_exceeds_scanner_limit: the witness and a random relative
+	for _, t := range []string{c01LongLine(r, true), c01LongLine(r, false)} {
+		if err := c01Text(o, dir, []string{"a"}, []string{t}, []string{"a"}, "long-line"); err != nil {
 			return err
 		}
 	}
 	scratch := hx.NewOut("", "C02", 1) // distribution of the text generator is not this property's
 	for i := 0; i < nt; i++ {
 		names := []string{"a", "b", "c"}[:r.Range(1, 3)]
-		var contents []string
-		for range names {
-			contents = append(contents, c02Text(r, scratch, r.Intn(20)))
-		}
-		var paths []string
-		for j := 0; j < r.Range(1, 3); j++ {
-			p := names[r.Intn(len(names))]
-			if r.Chance(0.2) {
-				p = "L=" + p
-			}
-			paths = append(paths, p)
-		}
+		contents, paths := c01GenFiles(r, scratch, names)
 		if err := c01Text(o, dir, names, contents, paths, "text"); err != nil {
 			return err
 		}
 	}
+	// the real cmd/benchfilter binary
+	exe, err := buildBenchfilter()
+	if err != nil {
+		return err
+	}
+	binFixed := []string{
+		"Unit ns/op better=lower\ngoos: linux\nBenchmarkX 1 100 ns/op 8 B/op\nPASS\nUnit MB/s better=higher assume=exact\ngoos: plan9\nBenchmarkY 2 5 MB/s\n",
+		"Unit widgets assume=exact\n",
+		"pkg: v\nBenchmarkX 1 1 ns/op\nUnit sec/op better=lower\nBenchmarkX 1 bad ns/op\npkg:\nBenchmarkZ 3 2 widgets 1 sec\n",
+	}
+	for _, t := range binFixed {
+		for _, stdin := range []bool{false, true} {
+			if err := c01Bin(o, r, exe, dir, []string{"a"}, []string{t}, []string{"a"}, stdin, "binary", "fixed"); err != nil {
+				return err
+			}
+		}
+	}
+	if err := c01Bin(o, r, exe, dir, []string{"a", "b"}, []string{binFixed[0], binFixed[2]}, []string{"a", "L=b", "a"}, false, "binary", "fixed"); err != nil {
+		return err
+	}
+	for i := 0; i < nb; i++ {
+		names := []string{"a", "b", "c"}[:r.Range(1, 3)]
+		contents, paths := c01GenFiles(r, scratch, names)
+		stdin := r.Chance(0.15)
+		if stdin {
+			names, contents, paths = names[:1], contents[:1], nil
+		}
+		if err := c01Bin(o, r, exe, dir, names, contents, paths, stdin, "binary"); err != nil {
+			return err
+		}
+	}
+	// one Reader reused through Reset, streamed into one Writer
+	lab := func(k, v string) [][2]string { return [][2]string{{k, v}} }
+	rf := func(labels [][2]string, text string) c02File {
+		return c02File{Name: "f", Labels: labels, Content: strconv.Quote(text)}
+	}
+	t1, t2, t3 := "k: v\nBenchmarkX 1 1 ns/op\n", "k: w\nBenchmarkY 1 1 ns/op\nj: 1\nBenchmarkY 2 2 MB/s\n", "BenchmarkZ 1 1 ns/op\nk: u\nBenchmarkZ 2 1 ns/op\n"
+	resetDirected := [][]c02File{
+		{rf(lab("k", "lab"), t1), rf(nil, t1), rf(lab("k", "lab"), t1), rf(nil, t2)},
+		{rf(nil, t1), rf(lab("k", "lab"), t1), rf(nil, t1)},
+		{rf(lab("k", "lab"), t3), rf(nil, t1), rf(lab("k", "lab"), t3)},
+		{rf(nil, t2), rf(lab("k", "lab"), t3), rf(lab("j", "x"), t2), rf(nil, t1)},
+		{rf(lab("k", "lab"), t2), rf(lab("k", "lab"), t2)},
+	}
+	for _, fs := range resetDirected {
+		var raw []string
+		for _, f := range fs {
+			t, _ := strconv.Unquote(f.Content)
+			raw = append(raw, t)
+		}
+		if err := c01Reset(o, fs, raw, "reset", "directed"); err != nil {
+			return err
+		}
+	}
+	for i := 0; i < nr; i++ {
+		nf := r.Range(2, 4)
+		var fs []c02File
+		var raw []string
+		k := []string{"goos", "pkg", "k1"}[r.Intn(3)]
+		for j := 0; j < nf; j++ {
+			var t string
+			switch r.Intn(3) {
+			case 0:
+				t = c02Text(r, scratch, r.Intn(16))
+			case 1:
+				t = c01ChurnText(r)
+			default: // the first line sets k
+				t = k + ": " + c01KVals[r.Intn(len(c01KVals))] + "\n" + c01ChurnText(r)
+			}
+			var labels [][2]string
+			switch r.Intn(4) {
+			case 0:
+				labels = c02Labels(r)
+			case 1, 2:
+				labels = lab(k, []string{"lab", "linux", "v"}[r.Intn(3)])
+			}
+			fs = append(fs, c02File{Name: []string{"f", "g.txt", ""}[r.Intn(3)], Labels: labels, Content: strconv.Quote(t)})
+			raw = append(raw, t)
+		}
+		if err := c01Reset(o, fs, raw, "reset"); err != nil {
+			return err
+		}
+	}
 	return nil
+}
+
+// c01GenFiles: contents for the named files (C02's text generator or the churn
+// generator) and 1-3 path arguments over them, some as label=path.
+func c01GenFiles(r *hx.Rng, scratch *hx.Out, names []string) (contents, paths []string) {
+	for range names {
+		if r.Chance(0.35) {
+			contents = append(contents, c01ChurnText(r))
+		} else {
+			contents = append(contents, c02Text(r, scratch, r.Intn(20)))
+		}
+	}
+	for j := 0; j < r.Range(1, 3); j++ {
+		p := names[r.Intn(len(names))]
+		if r.Chance(0.2) {
+			p = "L=" + p
+		}
+		paths = append(paths, p)
+	}
+	return contents, paths
 }
